@@ -1,6 +1,7 @@
 package checks
 
 import (
+	"sync/atomic"
 	"encoding/json"
 	"errors"
 	"fmt"
@@ -38,6 +39,10 @@ type faultResult struct {
 	InotifyFds    int      `json:"inotify_fds_after_close"`
 	Readers       int      `json:"reader_goroutines_after_close"`
 	ChannelsEnded bool     `json:"channels_closed"`
+	// neighbours: Watchers created AFTER the read error of the first one, each on its own directory
+	Neighbours        int      `json:"neighbours"`
+	NeighbourProblems []string `json:"neighbour_problems"`
+	NeighbourTimeouts int      `json:"neighbours_not_judged"`
 }
 
 // FaultChildMain is the scripted session (runs under strace).
@@ -101,6 +106,131 @@ func FaultChildMain(args []string) int {
 	if err := w.Remove(b); err != nil {
 		r.RemoveAfter = err.Error()
 	}
+	// Watchers created after the read error must be independent of the one that had it: each watches its own
+	// directory; files are created in all of them (and in a's) in an interleaved way while every consumer is
+	// slow, so that readers sit in the middle of a batch; each neighbour must deliver exactly its own names.
+	if os.Getenv("VERIF_FAULT_NEIGHBOURS") != "" {
+		const nY, perY = 16, 40
+		type nb struct {
+			w    *fsnotify.Watcher
+			d    string
+			got  map[string]int
+			sent int64 // 1 once the sentinel's Create was received (atomic)
+			errs []string
+			done chan struct{}
+		}
+		var ys []*nb
+		mk := func(n int) {
+			for i := 0; i < n; i++ {
+				yw, err := fsnotify.NewWatcher()
+				if err != nil {
+					return
+				}
+				y := &nb{w: yw, d: filepath.Join(d, fmt.Sprint("y", len(ys))), got: map[string]int{}, done: make(chan struct{})}
+				os.Mkdir(y.d, 0o755)
+				yw.Add(y.d)
+				ys = append(ys, y)
+				go func() {
+					defer close(y.done)
+					ev, er := y.w.Events, y.w.Errors
+					for ev != nil || er != nil {
+						select {
+						case e, ok := <-ev:
+							if !ok {
+								ev = nil
+								continue
+							}
+							y.got[e.Name]++
+							if filepath.Base(e.Name) == "zz-sentinel" {
+								atomic.StoreInt64(&y.sent, 1)
+							}
+							time.Sleep(200 * time.Microsecond) // slow consumer: the reader waits mid-batch
+						case e, ok := <-er:
+							if !ok {
+								er = nil
+								continue
+							}
+							y.errs = append(y.errs, e.Error())
+						}
+					}
+				}()
+			}
+		}
+		go func() { // the first Watcher keeps getting events meanwhile; nobody needs them
+			for {
+				select {
+				case _, ok := <-w.Events:
+					if !ok {
+						return
+					}
+				case _, ok := <-w.Errors:
+					if !ok {
+						return
+					}
+				}
+			}
+		}()
+		// two generations: the second is created after the first has had read errors of its own (strace
+		// injects into every inotify descriptor), and both are then active together
+		perGen := map[int]int{}
+		round := func(from, n int) {
+			for k := from; k < from+n; k++ {
+				os.WriteFile(filepath.Join(a, fmt.Sprintf("interleaved-%03d-with-a-long-name-to-fill-the-buffer", k)), nil, 0o644)
+				for i, y := range ys {
+					os.WriteFile(filepath.Join(y.d, fmt.Sprintf("n%03d", perGen[i])), nil, 0o644)
+					perGen[i]++
+				}
+			}
+		}
+		mk(nY / 2)
+		round(0, perY/2)
+		time.Sleep(20 * time.Millisecond)
+		mk(nY / 2)
+		round(perY/2, perY/2)
+		r.Neighbours = len(ys)
+		// sentinel per neighbour, created after everything else: the queue of one inotify instance is ordered, so
+		// once it has been received everything before it was delivered or is lost for good. A neighbour whose
+		// sentinel does not arrive within the (generous) cap is not judged.
+		for _, y := range ys {
+			os.WriteFile(filepath.Join(y.d, "zz-sentinel"), nil, 0o644)
+		}
+		judged := make([]bool, len(ys))
+		for i, y := range ys {
+			for k := 0; k < 300000; k++ {
+				if atomic.LoadInt64(&y.sent) == 1 {
+					judged[i] = true
+					break
+				}
+				time.Sleep(100 * time.Microsecond)
+			}
+			if !judged[i] {
+				r.NeighbourTimeouts++
+			}
+		}
+		for i, y := range ys {
+			y.w.Close()
+			<-y.done
+			if !judged[i] {
+				continue
+			}
+			delete(y.got, filepath.Join(y.d, "zz-sentinel"))
+			for k := 0; k < perGen[i]; k++ {
+				nm := filepath.Join(y.d, fmt.Sprintf("n%03d", k))
+				if y.got[nm] != 1 {
+					r.NeighbourProblems = append(r.NeighbourProblems, fmt.Sprintf("neighbour %d: Create of %s delivered %d times", i, filepath.Base(nm), y.got[nm]))
+					break
+				}
+			}
+			for nm := range y.got {
+				if filepath.Dir(nm) != y.d {
+					r.NeighbourProblems = append(r.NeighbourProblems, fmt.Sprintf("neighbour %d delivered a foreign or garbled name %q", i, nm))
+					break
+				}
+			}
+			// (values on the neighbours' Errors are not judged: strace injects into every inotify descriptor
+			// of the process, so they have read errors of their own)
+		}
+	}
 	if err := w.Close(); err != nil {
 		r.CloseErr = err.Error()
 	}
@@ -149,6 +279,9 @@ func runFaultSpec(c *core.Ctx, spec, when string) (r faultResult, injected int, 
 	trace := out + ".strace"
 	cmd := exec.Command("strace", "-f", "-o", trace, "-e", "trace=read", "-e", "inject=read:"+spec+":when="+when, "-P", "anon_inode:inotify", self, "faultchild", out)
 	cmd.Stdout, cmd.Stderr = os.Stderr, os.Stderr
+	if faultNeighbours {
+		cmd.Env = append(os.Environ(), "VERIF_FAULT_NEIGHBOURS=1")
+	}
 	done := make(chan error, 1)
 	if err := cmd.Start(); err != nil {
 		return r, 0, false
@@ -156,10 +289,10 @@ func runFaultSpec(c *core.Ctx, spec, when string) (r faultResult, injected int, 
 	go func() { done <- cmd.Wait() }()
 	select {
 	case <-done:
-	case <-time.After(60 * time.Second):
+	case <-time.After(120 * time.Second):
 		cmd.Process.Kill()
 		<-done
-		c.Inconclusive("fault session under strace did not finish within 60 s (when=" + when + ")")
+		c.Inconclusive("fault session under strace did not finish within 120 s (when=" + when + ")")
 		return r, 0, false
 	}
 	tb, _ := os.ReadFile(trace)
@@ -171,6 +304,9 @@ func runFaultSpec(c *core.Ctx, spec, when string) (r faultResult, injected int, 
 	}
 	return r, injected, true
 }
+
+// faultNeighbours: the next fault sessions also create neighbour Watchers after the read error (C14).
+var faultNeighbours bool
 
 var faultWhens = []string{"1", "2", "3", "5", "2+2", "1..3"}
 
